@@ -384,7 +384,8 @@ oscore_validate_sender_seq(oscore_recipient_ctx_t *ctx, cose_encrypt0_t *cose) {
   } else if (incoming_seq > ctx->last_seq) {
     /* Update the replay window */
     uint64_t shift = incoming_seq - ctx->last_seq;
-    ctx->sliding_window = ctx->sliding_window << shift;
+    /* A shift by the width of the type (or more) is undefined */
+    ctx->sliding_window = shift < 64 ? ctx->sliding_window << shift : 0;
     /* bitfield. B0 biggest seq seen.  B1 seq-1 seen, B2 seq-2 seen etc. */
     ctx->sliding_window |= 1;
     ctx->last_seq = incoming_seq;
